@@ -25,7 +25,8 @@ from .. import c16_gen as P, fingerprint as F, harness as H, snap as S
 from ..evidence import Run, canon_hash
 
 PID = "C16"
-SHARDS = {"quick": 6, "thorough": 16}
+SHARDS = {"quick": 8, "thorough": 16}
+SHARD_TIMEOUT = {"quick": 900, "thorough": 3000}
 N = {"quick": 1200, "thorough": 36000}
 
 MECH_NAME = "model-check-name-consumed-by-first-to_check"
@@ -251,6 +252,7 @@ def compare_validate(run, model, flat_s, table, backend, lazy, tag):
         run.count(f"reject_reason:{e.reason}")
     sa, sb = outcome_sig(a), outcome_sig(b)
     if sa == sb:
+        run.count("verdict_equal")
         run.count("verdict_equal:" + tag)
         if outcome_sig(a, True) == outcome_sig(b, True):
             run.count("verdict_equal_incl_check_index")
